@@ -250,7 +250,9 @@ fn gen_chain(rng: &mut Rng, tech: &str, arch: &str, os: &str) -> Option<String> 
         world.syms[0].1.push(Rec::C { addr: at, size: 64, rules: format!(".cfa: {} 0 + .ra: {}", reg_tok(arch, sp_name(arch)), lr) });
         world.mods[0].1 = msz + 64;
         // keep modules disjoint
-        if world.mods.len() > 1 && mb + msz as u64 + 64 > world.mods[1].0 {
+        // (the module list is not necessarily in address order)
+        let (lo, hi) = (mb, mb + msz as u64 + 64);
+        if world.mods.iter().skip(1).any(|(b, z, _)| *b < hi && lo < *b + *z as u64) {
             return None;
         }
         funcs.push(GFunc { module: 0, start: mb + at, size: 64, cfi_words: Some(0), saves_fp: false });
@@ -1094,8 +1096,8 @@ fn gen_mixed(rng: &mut Rng, tech: &str, arch: &str, os: &str) -> Option<String> 
     put(&mut words, total - 1, Word::Val(0));
     let len = total * p;
     let wide = p == 8;
-    let mods_lo = world.mods.first().map(|m| m.0).unwrap_or(0);
-    let mods_hi = world.mods.last().map(|m| m.0 + m.1 as u64).unwrap_or(0);
+    let mods_lo = world.mods.iter().map(|m| m.0).min().unwrap_or(0);
+    let mods_hi = world.mods.iter().map(|m| m.0 + m.1 as u64).max().unwrap_or(0);
     let base: u64 = {
         let cands: Vec<u64> = if wide {
             vec![
